@@ -602,11 +602,13 @@ def whole_cases(kind, values, cls, want, variants):
     tsets = [[kind], list(P.XKINDS)] if kind != "forwarded" else [[kind]]
     for T in tsets[: 1 + (variants > 0)]:
         for c in (1, 2, 3, 4):
-            for comp in range(3):
+            for comp in range(4):
                 lines = [[P.NAME[kind], v] for v in values]
                 if comp >= 1 and len(T) > 1:
                     lines.insert(0, ["X-Forwarded-For", "198.51.100.10, 198.51.100.11"])
-                    lines.append(["X-Forwarded-Host", "h0.example, h1.example"])
+                    # (comp 3: the forwarded hosts carry ports of their own, which take precedence over
+                    # X-Forwarded-Port -- the malformed header is malformed all the same)
+                    lines.append(["X-Forwarded-Host", "h0.example, h1.example" if comp < 3 else "h0.example:8080, h1.example:8081"])
                 elif comp >= 1:
                     continue
                 if comp == 2:
